@@ -339,27 +339,32 @@ def case_unknown(sec):
                cex=dict(kind='unknown', sec=sec) if not ok else None)]
 
 
-def case_precedence(_):
-    """Terminal arguments (symbolic-or-absent) > configuration > default."""
+def case_precedence(part):
+    """Terminal arguments (symbolic-or-absent) > configuration > default.
+    part 'options': nproc, layered, path; part 'files': the five names."""
     E = shadow.load()
     c = set_ctx(Ctx(timeout_ms=30000))
     State.OBJECT_ALLOC = True
-    grp = "precedence terminal > configuration file > default"
+    grp = f"precedence terminal > configuration file > default ({part})"
     bad = None
     n = 0
+    opt, fil = part == 'options', part == 'files'
+
+    def choice(name):
+        return bool(B(z3.Bool(name)))
 
     def run():
-        tn = Z.var('term_nproc') if bool(B(z3.Bool('has_nproc'))) else None
-        tl = bool(B(z3.Bool('term_layered'))) if bool(B(z3.Bool(
-            'has_layered'))) else None
-        cfg_w = bool(B(z3.Bool('cfg_has_workers')))
-        cfg_l = bool(B(z3.Bool('cfg_has_layered')))
-        tpath = '/T_path' if bool(B(z3.Bool('term_path'))) else None
-        cpath = '/C_path' if bool(B(z3.Bool('cfg_path'))) else None
+        tn = Z.var('term_nproc') if opt and choice('has_nproc') else None
+        tl = choice('term_layered') if opt and choice('has_layered') \
+            else None
+        cfg_w = opt and choice('cfg_has_workers')
+        cfg_l = opt and choice('cfg_has_layered')
+        tpath = '/T_path' if opt and choice('term_path') else None
+        cpath = '/C_path' if opt and choice('cfg_path') else None
         names = {}
         for k in ('survey', 'model', 'output', 'save', 'load'):
-            names[k] = (f"T_{k}" if bool(B(z3.Bool(f"term_{k}"))) else None,
-                        f"C_{k}" if bool(B(z3.Bool(f"cfg_{k}"))) else None)
+            names[k] = (f"T_{k}" if fil and choice(f"term_{k}") else None,
+                        f"C_{k}" if fil and choice(f"cfg_{k}") else None)
         content = {'simulation': {}, 'files': {}}
         if cfg_w:
             content['simulation']['max_workers'] = Opt('3')
@@ -431,7 +436,7 @@ def case_precedence(_):
                group=grp, cls='LIN', note=bad or '',
                key=f"CLI precedence: {bad}" if bad else None,
                cex=dict(kind='precedence', why=bad) if bad else None),
-            ob("twin: many combinations", 'twin_sat' if n >= 64 or bad
+            ob("twin: many combinations", 'twin_sat' if n >= 32 or bad
                else 'twin_unsat', group=grp, cls='LIN', nontrivial=False)]
 
 
@@ -1181,7 +1186,7 @@ def main(tier):
     jobs = [('case_key', x) for x in keys]
     jobs += [('case_downstream', x) for x in keys if x[0] != 'files']
     jobs += [('case_unknown', s) for s in docs]
-    jobs += [('case_precedence', None)]
+    jobs += [('case_precedence', 'options'), ('case_precedence', 'files')]
     jobs += [('case_run', f) for f in ('forward', 'misfit', 'gradient')]
     jobs += [('case_run_load', (f, g)) for f in ('forward', 'misfit',
                                                   'gradient')
